@@ -26,6 +26,7 @@ Val == 1..NV
 \*  "nil"      BlockIdFlag nil,    no extension, no signature
 \*  "ok"       commit, well-formed price extension, signed by the validator over (extension, height-1, round, chain id)
 \*  "empty"    commit, empty extension, validly signed
+\*  "emptyforged" commit, empty extension, "signed" by a key outside the validator set
 \*  "forged"   commit, extension signed by a key outside the validator set
 \*  "other"    commit, extension signed by another validator's key
 \*  "nosig"    commit, extension, no signature
@@ -33,8 +34,8 @@ Val == 1..NV
 \*  "toomany"  commit, validly signed extension with more prices than there are currency pairs
 \*  "nilext"   nil flag but an extension present
 \*  "nilsig"   nil flag, empty extension, but a signature present
-Counts(k) == k \in {"ok", "empty", "forged", "other", "nosig", "longprice", "toomany"}   \* commit flag
-SigBad(k) == k \in {"forged", "other"}
+Counts(k) == k \in {"ok", "empty", "emptyforged", "forged", "other", "nosig", "longprice", "toomany"}   \* commit flag
+SigBad(k) == k \in {"forged", "other", "emptyforged"}
 
 VARIABLES powers,   \* [Val -> 1..MaxPower]
           votes,    \* Seq([v, kind]); v = 0 is a signer that is not a validator
